@@ -155,3 +155,14 @@ def decode_items(t, d):
     want = item[:, None] * d + torch.arange(d, dtype=torch.float64)[None, :]
     ok = bool(torch.equal(e, want)) and bool((inp == inp[:, :1]).all())
     return ok, list(zip(inp[:, 0].long().tolist(), item.long().tolist()))
+
+
+def same_values(a, b):
+    """exact equality of two tensors in which NaN equals only NaN (NaN is not 0, inf is not the largest float — `nan_to_num` on both
+    sides would accept a result that turned NaN where it was 0): same shape, same NaN positions, equal everywhere else"""
+    if a.shape != b.shape:
+        return False
+    na, nb = torch.isnan(a), torch.isnan(b)
+    if not torch.equal(na, nb):
+        return False
+    return bool(torch.equal(a[~na], b[~nb]))
